@@ -34,6 +34,13 @@ MEMPOOL_HARNESSES = [
      'obligations': ['REAL MemPool::removeAll with a VTB that is connected once or twice (resubmission of a connected payload): afterwards neither the per-type map nor the VBK relations hold it, and generatePopData never returns it again'],
      'rungs': {'quick': [{'bound': 'one VTB connected 1..2 times on VBK block 3 (pool state constructed directly), removeAll, generatePopData', 'timeout': 200}], 'thorough': [{'bound': 'as quick', 'timeout': 400}]}},
 ]
+SP_HARNESSES = [
+    {'name': 'h_realsp', 'src': 'real/h_realsp.cpp', 'entry': 'h_realsp', 'repo_srcs': srcsets_real.REAL, 'covers': [1, 2, 3, 5], 'jobs': 8,
+     'obligations': ['REAL trees, two equal-work VBK branches: a failed setState and a comparePopScore the tip does not lose leave every observable of the ALT, VBK and BTC views unchanged, including the VBK best chain (first-seen branch), although applying the candidate moved it',
+                     'REAL trees: switching to the candidate and back reproduces the digest (VBK best chain, reference counts, VTB lists, endorsements)'],
+     'rungs': {'quick': [{'bound': 'VBK fork 2-3 / 2-4 delivered by the common ALT prefix in either order; candidate chain with a VTB contained in either branch, carried by either of its blocks, with or without a trailing invalid ATV; setState or comparePopScore', 'timeout': 250}],
+               'thorough': [{'bound': 'as quick', 'timeout': 600}]}},
+]
 FIN_HARNESSES = [
     {'name': 'h_realfin', 'src': 'real/h_realfin.cpp', 'entry': 'h_realfin', 'repo_srcs': srcsets_real.REAL, 'covers': [1, 2, 3], 'jobs': 8,
      'obligations': ['REAL AltBlockTree: an instance that finalizes (ALT -> VBK -> BTC cascade, blocks deallocated) gives the same validity result, activation result and tip for the next block as a twin that never finalizes',
